@@ -147,6 +147,20 @@ func mapOf(kind string, z *big.Int) interface{} {
 	return m.Interface()
 }
 
+// the integer only as the key / only as the value of a map entry
+func mapKeyOf(kind string, z *big.Int) interface{} {
+	v := reflect.ValueOf(kindValue(kind, z))
+	m := reflect.MakeMap(reflect.MapOf(v.Type(), reflect.TypeOf("")))
+	m.SetMapIndex(v, reflect.ValueOf("v"))
+	return m.Interface()
+}
+func mapValueOf(kind string, z *big.Int) interface{} {
+	v := reflect.ValueOf(kindValue(kind, z))
+	m := reflect.MakeMap(reflect.MapOf(reflect.TypeOf(""), v.Type()))
+	m.SetMapIndex(reflect.ValueOf("k"), v)
+	return m.Interface()
+}
+
 // numeric value of anything integer-like
 func numOf(x interface{}) (*big.Int, bool) {
 	v := reflect.ValueOf(x)
@@ -523,7 +537,30 @@ func c07Positions(c *ctx, kind string, z *big.Int) {
 		}
 		return a, true
 	})
-	c.sample(map[string]interface{}{"kind": kind, "z": z.String(), "positions": "top,field,list,map"})
+	check("mapkey", mapKeyOf(kind, z), func(dec interface{}) (*big.Int, bool) {
+		v := reflect.ValueOf(dec)
+		if v.Kind() != reflect.Map || v.Len() != 1 {
+			return nil, false
+		}
+		return numOf(v.MapKeys()[0].Interface())
+	})
+	check("mapvalue", mapValueOf(kind, z), func(dec interface{}) (*big.Int, bool) {
+		v := reflect.ValueOf(dec)
+		if v.Kind() != reflect.Map || v.Len() != 1 {
+			return nil, false
+		}
+		return numOf(v.MapIndex(v.MapKeys()[0]).Interface())
+	})
+	if kind != "uint8" {
+		check("ifacelist", []interface{}{kindValue(kind, z), "s"}, func(dec interface{}) (*big.Int, bool) {
+			l, ok := dec.([]interface{})
+			if !ok || len(l) != 2 {
+				return nil, false
+			}
+			return numOf(l[0])
+		})
+	}
+	c.sample(map[string]interface{}{"kind": kind, "z": z.String(), "positions": "top,field,list,map,mapkey,mapvalue,ifacelist"})
 }
 
 func bigHex(z *big.Int) string { return z.Text(16) }
